@@ -33,9 +33,16 @@ func listRenameCandidates(w *World, frags []string) {
 				if !x.Exported() && n != "init" && n != "main" {
 					out = append(out, rel+"."+n)
 				}
+			case *types.Var, *types.Const:
+				if !o.Exported() && n != "_" {
+					out = append(out, rel+"."+n)
+				}
 			case *types.TypeName:
 				if strings.HasSuffix(n, "Mock") {
 					continue
+				}
+				if !x.Exported() {
+					out = append(out, rel+"."+n)
 				}
 				if st, ok := x.Type().Underlying().(*types.Struct); ok {
 					for i := 0; i < st.NumFields(); i++ {
